@@ -485,7 +485,7 @@ class TransactionContext:
         if len(args) != 2:
             raise ExpressionError("strip_suffix() requires 2 arguments: strip_suffix(text, suffix)")
         text, suffix = str(args[0]), str(args[1])
-        if text.upper().endswith(suffix.upper()):
+        if suffix and text.upper().endswith(suffix.upper()):
             return text[:-len(suffix)]
         return text
 
